@@ -61,6 +61,39 @@ theorem rx2_default_freq_rp002 : ∀ r ∈ RegionId.all, rx2Frequency r = rx2Def
 
 end C10
 
+namespace C09
+
+/-- "the regional maximum EIRP" of C09 is RP002's: whatever TXPower index (every `u8`) the region's
+REGENERATED `tx_power_adjust` accepts, the level it yields is at most RP002's maximum EIRP of the
+region, and index 0 yields a level (EU433 carried 16 dBm where RP002 gives 12.15 dBm until /repo's
+fix; `C09`'s power theorems bound every transmission by `txPowerAdjust r 0` less the antenna gain) -/
+def powOk (r : RegionId) (p : Nat) : Bool :=
+  match txPowerAdjust r p with
+  | .ok (some v) => decide ((v : Int) ≤ maxEirpDbm r.name)
+  | .ok none => true
+  | .error _ => false
+
+theorem powOk_all : ∀ r ∈ RegionId.all, ∀ p ∈ List.range 256, powOk r p = true := by decide +kernel
+
+theorem tx_power_le_max_eirp_rp002 (r : RegionId) (p : Nat) (hp : p < 256) (v : Nat)
+    (h : txPowerAdjust r p = .ok (some v)) : (v : Int) ≤ maxEirpDbm r.name := by
+  have hr : r ∈ RegionId.all := by cases r <;> decide
+  have := powOk_all r hr p (List.mem_range.mpr hp)
+  unfold powOk at this
+  rw [h] at this
+  exact of_decide_eq_true this
+
+theorem tx_power_0_defined : ∀ r ∈ RegionId.all,
+    (match txPowerAdjust r 0 with | .ok (some v) => decide ((v : Int) ≤ maxEirpDbm r.name) | _ => false) = true := by
+  decide +kernel
+
+/-- non-vacuity: EU433 TXPower 0 is 12 dBm, TXPower 5 is 2 dBm -/
+example : (match txPowerAdjust .EU433 0, txPowerAdjust .EU433 5 with | .ok (some a), .ok (some b) => a == 12 && b == 2 | _, _ => false) = true := by decide
+
+end C09
+
+#print axioms C09.tx_power_le_max_eirp_rp002
+#print axioms C09.tx_power_0_defined
 #print axioms C10.rx2_default_freq_rp002
 #print axioms C05.datarate_tables_rp002
 #print axioms C05.getDatarate_rp002
